@@ -46,6 +46,16 @@ def gen(chk, mpmath, rng):
     mp = mpmath.mp
     for item in sf.samereal(chk, mpmath, rng, TABLE, 8, chk.pick(200, 9000), PROP, hiprec=0.08):
         yield item
+    # magnitude sweep: z = c * 2^-k for every k (theta_1 and the derivatives vanish with z: the working precision must grow with k)
+    P = chk.pick(rng.choice([53, 80]), 200)
+    q = Fr(rng.randint(5, 50), 64)
+    cfr = Fr(rng.randint(9, 15), 8)
+    grid = [(cfr / 2 ** k, q) for k in range(0, 70, chk.pick(2, 1))]
+    for n in (1, 2, 3, 4):
+        for item in sf.sweep(mpmath, "jtheta%d" % n, (lambda n_: (lambda mp_, a: mp_.jtheta(n_, a[0], a[1])))(n), grid, P, 8, PROP):
+            yield item
+    for item in sf.sweep(mpmath, "ellipfun-sn", lambda mp_, a: mp_.ellipfun("sn", a[0], q=a[1]), grid[:40], P, 8, PROP):
+        yield item
     for i in range(chk.pick(150, 5000)):
         p = rng.choice([30, 53, 53, 100, 200]); mp.prec = p
         c = rng.random()
